@@ -583,4 +583,51 @@ theorem merge_parentLt {u u' : UF} {x y : Nat} (hpl : u.ParentLt) (h : u.merge x
           · cases h
             exact link_parentLt pl2 (by simp [kx]) (by simp [ky]) (by omega)
 
+theorem findNode_none_iff {u : UF} {x : Nat} : u.findNode x = none ↔ u.parentOf x = none := by
+  unfold UF.findNode
+  cases u.parentOf x <;> simp
+
+/-- `merge` raises exactly on `x = y` (assertion) or an unknown value (KeyError) -/
+theorem merge_none_iff {values : List Nat} {pairs : List (Nat × Nat)} {u : UF} {x y : Nat}
+    (hi : UInv values pairs u) : u.merge x y = none ↔ (x = y ∨ x ∉ values ∨ y ∉ values) := by
+  unfold UF.merge
+  by_cases hxy : x = y
+  · simp [hxy]
+  · rw [if_neg hxy]
+    cases h1 : u.findNode x with
+    | none =>
+      have : x ∉ values := fun hx => (hi.keys x).mpr hx (findNode_none_iff.mp h1)
+      simp [this]
+    | some p1 =>
+      obtain ⟨u1, xr⟩ := p1
+      have i1 := uinv_findNode hi h1
+      have hx : x ∈ values := (hi.keys x).mp (findNode_spec hi.parentLt h1).1
+      cases h2 : u1.findNode y with
+      | none =>
+        have : y ∉ values := fun hy => (i1.keys y).mpr hy (findNode_none_iff.mp h2)
+        simp [this, h2]
+      | some p2 =>
+        obtain ⟨u2, yr⟩ := p2
+        have hy : y ∈ values := (i1.keys y).mp (findNode_spec i1.parentLt h2).1
+        simp only [hxy, hx, hy, not_true_eq_false, or_self, iff_false]
+        by_cases e : xr = yr
+        · simp [e, h2]
+        · by_cases l : xr < yr <;> simp [e, l, h2]
+
+theorem ufrun_length (u : UF) (ops : List UOp) : (UF.run u ops).length = ops.length := by
+  induction ops generalizing u with
+  | nil => rfl
+  | cons op ops ih => simp [UF.run, ih]
+
+theorem ufrun_getElem (u : UF) (ops : List UOp) (k : Nat) (hk : k < ops.length) :
+    (UF.run u ops)[k]'(by rw [ufrun_length]; exact hk) = ((UF.exec u (ops.take k)).step ops[k]).2 := by
+  induction ops generalizing u k with
+  | nil => simp at hk
+  | cons op ops ih =>
+    cases k with
+    | zero => simp [UF.run, UF.exec]
+    | succ k =>
+      simp only [UF.run, List.getElem_cons_succ, List.take_succ_cons, UF.exec]
+      exact ih _ k (by simpa using hk)
+
 end WhVerif.C18
